@@ -219,6 +219,12 @@ def lean_check(pid: str, thorough: bool = False, own_tables: bool = False):
             if own_tables or not good.exists():
                 res["failed"].append("skcdriver (model driver does not build: " + (re.findall(r"error: (\S+\.lean:\d+)", outd) or ["?"])[0] + ")")
         # private copy for this run: another check may relink the shared binary meanwhile
+        for stale in aud.glob("skcdriver.run*"):
+            try:
+                if time.time() - stale.stat().st_mtime > 4 * 3600:
+                    stale.unlink()
+            except OSError:
+                pass
         if good.exists():
             mine = aud / f"skcdriver.run{os.getpid()}"
             shutil.copy2(good, mine)
